@@ -567,7 +567,66 @@ def rule_r5(chk, p, t, rid="C05.R5"):
     )
     gc = p.func("resonaate.physics.time.stardate.getCalendarDate")
 
+    def pathwise():
+        """Decide getCalendarDate on its paths: the (year, day of year) handed to days2mdh on each path, as expressions
+        of the Julian date.  None when the function is not straight-line arithmetic between its branches."""
+        from rsa.terms import NotEvaluable, expand_poly, path_states
+
+        calls = find_calls(gc.node, "days2mdh")
+        if len(calls) != 1 or len(calls[0].args) != 2 or not all(isinstance(a, ast.Name) for a in calls[0].args):
+            return None
+        ny, nd = [a.id for a in calls[0].args]
+        try:
+            states = path_states(gc)
+        except NotEvaluable:
+            return None
+        jd = gc.params[0]
+        T = f"(float({jd}) - 2415019.5)"
+        Y0 = f"(1900 + floor({T} / 365.25))"
+
+        def D(Y):
+            return f"({T} - (({Y} - 1900) * 365 + floor(({Y} - 1901) * 0.25)))"
+
+        def P(txt):
+            return expand_poly(ast.parse(txt, mode="eval").body)
+
+        want = {False: (P(Y0), P(D(Y0))), True: (P(f"({Y0} - 1)"), P(D(f"({Y0} - 1)")))}
+        seen = set()
+        bad = []
+        for stt in states:
+            y, d = stt["env"].get(ny), stt["env"].get(nd)
+            if y is None or d is None:
+                return None
+            corr = [(tst, pol) for tst, pol in stt["conds"] if isinstance(tst, ast.Compare)]
+            if len(corr) != 1:
+                return None
+            tst, pol = corr[0]
+            # the correction is taken exactly when the uncorrected day of year is below one
+            taken = None
+            if len(tst.ops) == 1 and isinstance(tst.ops[0], (ast.Lt, ast.GtE)) and expand_poly(tst.left) == P(D(Y0)) and expand_poly(tst.comparators[0]) == P("1.0"):
+                taken = pol if isinstance(tst.ops[0], ast.Lt) else (not pol)
+            if taken is None:
+                bad.append(f"correction condition `{unparse(tst)[:80]}`")
+                continue
+            seen.add(taken)
+            wy, wd = want[taken]
+            if expand_poly(y) != wy:
+                bad.append(f"year on the {'corrected' if taken else 'plain'} path is `{unparse(y)[:80]}`")
+            if expand_poly(d) != wd:
+                bad.append(f"day of year on the {'corrected' if taken else 'plain'} path is `{unparse(d)[:110]}`: a quantity of the year before its correction (the leap-day count) is combined with the corrected year - 31 December of a leap year decodes one day early" if taken else f"day of year on the plain path is `{unparse(d)[:110]}`")
+        if seen != {True, False} and not bad:
+            bad.append("the beginning-of-year correction is missing")
+        return bad
+
     def one():
+        pw = pathwise()
+        if pw is not None:
+            if pw:
+                r.violation(gc.qualname, "stale-derived-value:" + ";".join(b[:60] for b in pw), "getCalendarDate deviates from the cited algorithm: " + "; ".join(pw), gc.loc())
+            else:
+                r.ok(gc.qualname + ":generations", "path-wise: (year, day of year) = (Y0, D(Y0)), or (Y0 - 1, D(Y0 - 1)) exactly when D(Y0) < 1", gc.loc())
+                r.ok(gc.qualname + ":algorithm", "days since 1900, year, leap days, day of year; corrected when day_of_year < 1", gc.loc())
+            return
         mixes, n = generation_mix(gc, "year")
         r.paths_enumerated += n
         if mixes:
@@ -649,16 +708,29 @@ def rule_r5(chk, p, t, rid="C05.R5"):
             if isinstance(nn, ast.Assign) and isinstance(nn.targets[0], ast.Name):
                 defs.setdefault(nn.targets[0].id, []).append(nn.value)
         exp = {
-            "hour_remainder": "(day_of_year - day_of_year_int) * 24",
-            "hour": "floor(hour_remainder)",
-            "minute_remainder": "(hour_remainder - hour) * 60",
-            "minute": "floor(minute_remainder)",
-            "second": "(minute_remainder - minute) * 60",
             "day": "day_of_year_int - int_temp",
             "day_of_year_int": "floor(day_of_year)",
         }
         bad = [f"{k} = {[unparse(x) for x in defs.get(k, [])][:1]}" for k, s in exp.items() if not defs.get(k) or _c(defs[k][0]) != _c(ast.parse(s, mode="eval").body)]
+        # hour / minute / second: successive remainders of the day fraction, compared after full inlining
+        from rsa.terms import expand_poly, inline_locals
+
+        rets_ = [nn for nn in walk_no_nested(dm.node) if isinstance(nn, ast.Return) and nn.value is not None]
+        if rets_ and isinstance(rets_[-1].value, ast.Tuple) and len(rets_[-1].value.elts) == 5:
+            doy = dm.params[1]
+            F = f"(({doy} - floor({doy})) * 24)"
+            H = f"floor({F})"
+            MR = f"(({F} - {H}) * 60)"
+            M = f"floor({MR})"
+            S = f"(({MR} - {M}) * 60)"
+            for nm_, want_, got_ in zip(("hour", "minute", "second"), (H, M, S), rets_[-1].value.elts[2:]):
+                if expand_poly(inline_locals(dm, got_)) != expand_poly(ast.parse(want_, mode="eval").body):
+                    bad.append(f"{nm_} = `{unparse(inline_locals(dm, got_))[:90]}` (expected successive remainders of the day fraction)")
+        else:
+            bad.append("days2mdh does not return (month, day, hour, minute, second)")
         ws = [nn for nn in walk_no_nested(dm.node) if isinstance(nn, ast.While)]
+        if not ws:
+            raise Undecided("the month search of days2mdh is not written as the cumulative while loop: form not modelled", dm.node)
         if not (ws and unparse(ws[0].test) == "(day_of_year_int > int_temp + days_in_month[item - 1]) & (item < 12)"):
             bad.append(f"month loop `{unparse(ws[0].test) if ws else None}`")
         rets = [nn for nn in walk_no_nested(dm.node) if isinstance(nn, ast.Return)]
